@@ -9,8 +9,8 @@ GROUP=$1; OUT=$2
 mkdir -p "$OUT/ov"
 case "$GROUP" in
   nsqdx)
-    PKGS="./nsqd ./internal/util ./internal/quantile ./internal/dirlock ./internal/auth github.com/nsqio/go-diskqueue"
-    MOUNT="$VERIF/harness/nsqd=nsqd,$VERIF/harness/cmd/nsqdx=internal/verif/cmd/nsqdx"
+    PKGS="./nsqd ./nsqlookupd ./internal/clusterinfo ./internal/util ./internal/quantile ./internal/dirlock ./internal/auth github.com/nsqio/go-diskqueue"
+    MOUNT="$VERIF/harness/nsqd=nsqd,$VERIF/harness/nsqlookupd=nsqlookupd,$VERIF/harness/http_api=internal/http_api,$VERIF/harness/cmd/nsqdx=internal/verif/cmd/nsqdx"
     KEEP=""
     ;;
   lookupx)
